@@ -621,8 +621,8 @@ func oracle(sc *scenario, root string, i int, ob *stepObs, st *Stats, write, all
 			neverWritten = neverWritten && failedWrites[d]
 		}
 		if neverWritten {
-			// known: the path of a failed write stays in the hash table, so a later rebuild "deletes" it
-			failKnown("rebuild-removed-directory-it-never-wrote", tagged("failed-write-path-stays-in-hash-table"), diff, "a rebuild only deletes files an earlier build of the context wrote")
+			// finding J2, repaired by /repo commit b32af0b: must not come back
+			st.Fail("rebuild-removed-directory-it-never-wrote", tagged("failed-write-path-stays-in-hash-table"), diff, "a rebuild only deletes files an earlier build of the context wrote")
 		} else {
 			st.Fail("directory-or-link-removed", in(), diff, "a build never removes directories or touches symbolic links")
 		}
@@ -684,11 +684,8 @@ func oracle(sc *scenario, root string, i int, ob *stepObs, st *Stats, write, all
 			for _, m := range assetRef.FindAllStringSubmatch(string(f.Contents), -1) {
 				target := strings.TrimPrefix(physPath(filepath.Join(filepath.Dir(f.Path), m[1])), root)
 				if _, ok := after.files[target]; !ok {
-					if sc.kind == "finding-K" {
-						failKnown("asset-reference-dangling", tagged("case-variant-duplicate-asset-dropped"), map[string]interface{}{"script": strings.TrimPrefix(f.Path, root), "refers_to": m[1]}, "the asset exists")
-					} else {
-						st.Fail("asset-reference-dangling", in(), map[string]interface{}{"script": strings.TrimPrefix(f.Path, root), "refers_to": m[1]}, "the asset exists")
-					}
+					// finding K (case-variant duplicate dropped) was repaired by /repo commit 11ec04b
+					st.Fail("asset-reference-dangling", in(), map[string]interface{}{"script": strings.TrimPrefix(f.Path, root), "refers_to": m[1]}, "the asset exists")
 				}
 			}
 		}
@@ -1128,8 +1125,8 @@ func fixedScenarios() []*scenario {
 	}
 	j2.steps = []stepSpec{{label: "build-with-mkdir-error"}}
 	out = append(out, j2)
-	// K: two file-loader assets whose hash-less names differ only in case, identical contents
-	k := &scenario{kind: "finding-K", files: map[string]string{"/src/a.js": "import u from './x/A.txt'\nimport v from './y/a.txt'\nconsole.log(u, v)\n", "/src/x/A.txt": "same", "/src/y/a.txt": "same"},
+	// K (repaired by 11ec04b, must pass): two file-loader assets whose hash-less names differ only in case, identical contents
+	k := &scenario{kind: "fixed-K-corpus", files: map[string]string{"/src/a.js": "import u from './x/A.txt'\nimport v from './y/a.txt'\nconsole.log(u, v)\n", "/src/x/A.txt": "same", "/src/y/a.txt": "same"},
 		desc: "entry src/a.js imports x/A.txt and y/a.txt (file loader, identical contents) asset-names=[name] outdir=out bundle"}
 	k.opts = func(string) api.BuildOptions {
 		return api.BuildOptions{EntryPoints: []string{"src/a.js"}, Outdir: "out", Bundle: true, Format: api.FormatESModule, AssetNames: "[name]", Loader: map[string]api.Loader{".txt": api.LoaderFile}, Write: true}
